@@ -121,8 +121,10 @@ structure St where
   refs : Nat := 1
   /-- the owner has been destroyed and freed -/
   dead : Bool := false
+  /-- harness memory: the handlers' own reference (the one `tickit_pen_new` / `tickit_term_build` returned) is still held -/
+  userRef : Bool := true
 
-def St.init : St := ⟨[], false, false, [], fun _ => 0, 1, [], 1, false⟩
+def St.init : St := ⟨[], false, false, [], fun _ => 0, 1, [], 1, false, true⟩
 
 inductive Res (α : Type) where
   | ok (a : α)
@@ -314,7 +316,8 @@ def exec : Nat → Task → St → Res (St × Int)
       match as with
       | [] => .ok (st, 0)
       | a :: rest =>
-        if st.dead then .ub "handler: the owner is used after it was destroyed" else
+        -- the handler interpreter does not touch an owner that is gone
+        if st.dead then .ok (st, 0) else
         let st1 := st.push (Ev.actBegin i)
         let r : Res (St × Int) := match a with
           | .bind ev first flags h => .ok (bindEvent st1 ev first flags h, 0)
@@ -325,7 +328,8 @@ def exec : Nat → Task → St → Res (St × Int)
             | none => .ok (st1, 0)
             | some id => exec fuel (.unbindId id) st1
           | .emit ev => if own.canEmit ev then exec fuel (.emitter (own.wf ev) ev) st1 else .ok (st1, 0)
-          | .destroy => exec fuel .unref st1
+          -- the handlers own one reference and drop it once
+          | .destroy => if st1.userRef then exec fuel .unref { st1 with userRef := false } else .ok (st1, 0)
         match r with
         | .ok (st2, _) => exec fuel (.acts self (i + 1) rest) (st2.push Ev.actEnd)
         | e => e
@@ -415,7 +419,7 @@ def execOps (fuel : Nat) : List Op → St → Res St
   | [], st => .ok st
   | op :: rest, st =>
     match execOp cfg own beh fuel op st with
-    | .ok st' => if op = .destroy then .ok st' else execOps fuel rest st'
+    | .ok st' => if op = .destroy || st'.dead then .ok st' else execOps fuel rest st'
     | e => e
 
 end
